@@ -60,6 +60,9 @@ def configs(ctx):
             N = m * 2 ** J
             if N // 2 ** (J - 1) >= L and N <= 64:
                 items.append((2, L, (N, N + 2 ** J), J))
+                if L in (4, 8):
+                    items.append((2, L, (N, N + 2 ** J), J, 'per'))
+                    items.append((1, L, N, J, 'per'))
     return items
 
 
